@@ -687,6 +687,16 @@ static void emitEvents(Ctx &C, const Stmt *S, const FunctionDecl *Cur, json::Arr
       json::Object o;
       o["k"] = "lambda";
       o["name"] = lambdaName(C, LE->getLambdaClass());
+      {
+        // captures (explicit and implicit): [name, "copy" | "ref"]; `this` is ["this", "copy"|"ref"]
+        json::Array caps;
+        for (const LambdaCapture &LC : LE->captures()) {
+          std::string nm = LC.capturesThis() ? "this" : (LC.capturesVariable() && LC.getCapturedVar() ? LC.getCapturedVar()->getNameAsString() : "?");
+          bool byref = LC.getCaptureKind() == LCK_ByRef || LC.getCaptureKind() == LCK_This;
+          caps.push_back(json::Array{nm, byref ? "ref" : "copy"});
+        }
+        o["caps"] = std::move(caps);
+      }
       addLoc(C, o, LE);
       ev.push_back(std::move(o));
       return;
